@@ -60,9 +60,10 @@ Cases ==
   \cup {[kind |-> "display_first", name |-> f, expect |-> FirstClass[f]] : f \in DOMAIN FirstClass}
   \cup {[kind |-> "from_number", n |-> n, expect |-> n] : n \in Sigs}
   \* wait statuses: exit codes, terminating signals with and without the core-dump bit
+  \* (`back`: the wait status the portable form converts back to - the same code, the same signal, no core bit)
   \cup {[kind |-> "status", raw |-> c * 256,
-         expect |-> IF c = 0 THEN [d |-> "success", v |-> 0] ELSE [d |-> "error", v |-> c]] : c \in 0..255}
-  \cup {[kind |-> "status", raw |-> s + core * 128, expect |-> [d |-> "signal", v |-> s]] :
+         expect |-> IF c = 0 THEN [d |-> "success", v |-> 0, back |-> 0] ELSE [d |-> "error", v |-> c, back |-> c * 256]] : c \in 0..255}
+  \cup {[kind |-> "status", raw |-> s + core * 128, expect |-> [d |-> "signal", v |-> s, back |-> s]] :
             s \in Sigs, core \in {0, 1}}
 
 VARIABLES c, done
